@@ -1,6 +1,7 @@
 SPECIFICATION TraceSpec
 CONSTANTS
   MaxCalls = 100
+  Focus = {}
   MaxLive = 100
   Payloads = {}
 POSTCONDITION Accepted
